@@ -189,6 +189,29 @@ def main(tier, seed):
                 if db is None or db.sql_renderer is not MarkSQL or db.dbml_renderer is not MarkDBML or db.allow_properties != props \
                         or db.sql != '<custom sql>' or db.dbml != '<custom dbml>':
                     ctx.fail(f'options passed through {name} do not reach the database', {'op': 'options', 'route': name, 'props': props})
+        # the same options given BY POSITION (source, allow_properties, sql_renderer, dbml_renderer - the documented order)
+        prop_text = "Table t {\n  id int [k: 'v']\n  owner: 'me'\n}\n"
+        pos_routes = [('PyDBML(str, ...)', lambda *a: PyDBML(prop_text, *a)),
+                      ('PyDBML.parse(str, ...)', lambda *a: PyDBML.parse(prop_text, *a)),
+                      ('PyDBML().parse(str, ...)', lambda *a: PyDBML().parse(prop_text, *a))]
+        for name, thunk in pos_routes:
+            for args in ((True,), (True, MarkSQL, MarkDBML), (False, MarkSQL)):
+                ctx.case(core.h(['opts-positional', name, len(args), args[0]]), True,
+                         sample={'route': name, 'positional_options': [getattr(a, '__name__', a) for a in args]} if len(args) == 3 else None)
+                try:
+                    db = thunk(*args)
+                    got = (db.allow_properties, db.sql_renderer, db.dbml_renderer, bool(db.tables and db.tables[0].properties))
+                except Exception as e:  # noqa: BLE001
+                    got = O.classify(e)
+                from pydbml.renderer.sql.default import DefaultSQLRenderer as _DS
+                from pydbml.renderer.dbml.default import DefaultDBMLRenderer as _DD
+                if args[0]:
+                    want = (True, args[1] if len(args) > 1 else _DS, args[2] if len(args) > 2 else _DD, True)
+                else:
+                    want = 'syntax'        # the document has properties: with the option off it is a syntax error
+                if got != want:
+                    ctx.fail(f'options passed by position through {name} do not have the effect they have by keyword',
+                             {'op': 'options-positional', 'route': name, 'n_args': len(args)}, got=str(got), want=str(want))
         # other source types
         for bad in (b'Table t {\n id int\n}', 42, ['Table'], io.StringIO('Table t {\n id int\n}'), 3.5, object()):
             ctx.case(core.h(['type', type(bad).__name__]), True, sample={'source_type': type(bad).__name__})
